@@ -71,6 +71,18 @@ def sites(path, ops=None):
         st = ln.strip()
         if not st or st.startswith("//") or st.startswith("#[") or st.startswith("*") or st.startswith("use "):
             continue
+        if ops and "lit" in ops:
+            # an integer literal off by one (API layer only: arithmetic inside a primitive is value-level)
+            if any(x in path for x in ("/poly1305/", "/blake2b/", "argon2.rs", "siphash", "sha512.rs", "scalarmult")):
+                break
+            if re.match(r"^\s*(pub(\([a-z]+\))? )?(type|const|static) ", ln) or "assert" in ln or "=>" in ln and "=> {" not in ln:
+                continue
+            for m in re.finditer(r"(?<![\w\.\"#])(\d+)(usize|u8|u32|u64)?(?![\w\.\"])", ln):
+                v = int(m.group(1))
+                if v > 4096 or ln[:m.start()].count('"') % 2 == 1:
+                    continue
+                out.append((i, "lit %d->%d" % (v, v + 1), ln[:m.start(1)] + str(v + 1) + ln[m.end(1):]))
+            continue
         if ops and "swap" in ops:
             # two consecutive argument lines of a multi-line call exchanged
             nxt = lines[i + 1] if i + 1 < len(lines) else ""
